@@ -76,6 +76,9 @@ func main() {
 	}
 	sort.Slice(pkgs, func(i, j int) bool { return pkgs[i].PkgPath < pkgs[j].PkgPath })
 	for _, p := range pkgs {
+		collectWritten(p)
+	}
+	for _, p := range pkgs {
 		rep.Packages++
 		instrumentPackage(p, *root, rep)
 	}
@@ -91,13 +94,15 @@ func rel(root, file string) string {
 	return r
 }
 
-func instrumentPackage(p *packages.Package, root string, rep *report) {
-	fset := p.Fset
+// written: package-level variables assigned anywhere in the loaded packages (also from another
+// package, through a qualified name).
+var written = map[types.Object]bool{}
+
+func collectWritten(p *packages.Package) {
 	// R4: find written package-level variables
-	written := map[types.Object]bool{}
 	isPkgVar := func(o types.Object) bool {
 		v, ok := o.(*types.Var)
-		return ok && !v.IsField() && v.Parent() == p.Types.Scope()
+		return ok && !v.IsField() && v.Pkg() != nil && v.Parent() == v.Pkg().Scope()
 	}
 	for i, f := range p.Syntax {
 		if skipFile(p.CompiledGoFiles[i]) {
@@ -111,6 +116,14 @@ func instrumentPackage(p *packages.Package, root string, rep *report) {
 						e = x.X
 						continue
 					case *ast.SelectorExpr:
+						if id, ok := x.X.(*ast.Ident); ok {
+							if _, isPkg := p.TypesInfo.Uses[id].(*types.PkgName); isPkg {
+								if o := p.TypesInfo.Uses[x.Sel]; o != nil && isPkgVar(o) {
+									written[o] = true
+								}
+								return
+							}
+						}
 						e = x.X
 						continue
 					case *ast.IndexExpr:
@@ -145,6 +158,10 @@ func instrumentPackage(p *packages.Package, root string, rep *report) {
 			return true
 		})
 	}
+}
+
+func instrumentPackage(p *packages.Package, root string, rep *report) {
+	fset := p.Fset
 	for i, f := range p.Syntax {
 		name := p.CompiledGoFiles[i]
 		if skipFile(name) || !strings.HasPrefix(name, root) {
@@ -254,7 +271,7 @@ func instrumentPackage(p *packages.Package, root string, rep *report) {
 					initSrc = "*new(" + buf.String() + ")"
 				}
 				full := p.PkgPath[strings.Index(p.PkgPath, "/sao/")+5:] + "." + vs.Names[0].Name
-				regs = append(regs, fmt.Sprintf("\tverifrt.RegisterGlobal(%q, func() string { return verifrt.Sprint(%s) }, func() { %s = %s })\n", full, vs.Names[0].Name, vs.Names[0].Name, initSrc))
+				regs = append(regs, fmt.Sprintf("\tverifrt.RegisterGlobalPtr(%q, &%s, func() { %s = %s })\n", full, vs.Names[0].Name, vs.Names[0].Name, initSrc))
 				rep.Globals = append(rep.Globals, full)
 				changed, needRT = true, true
 			}
